@@ -209,4 +209,41 @@ theorem exFree_preimage : preimage exFree [0, 3, 0] = [-3] := by
   have hf : flags exFree = [true] := by simp [flags, tys, tyOf, lookup, exFree, isFree]
   simp [preimage, hf, countF, countT, back]
 
+/-! ### `min x s.t. x ≤ −1, x ≥ 0` — infeasible: phase 1 stops at `−1` -/
+
+def exInf : LinModel (Ext ℚ) :=
+  { optType := .min, objective := [.fin 1], offset := .fin 0, vars := ["x"],
+    domain := [{ name := "x", ty := .nnreal (.fin 0) .pinf, usage := 1 }],
+    rows := [{ name := "c", coeffs := [.fin 1], cmp := .le, rhs := .fin (-1) }] }
+
+def exInfStd : StdModel (Ext ℚ) :=
+  { vars := ["x", "$sl_1"], objective := [.fin 1, .fin 0], offset := .fin 0, flip := false,
+    rows := [{ coeffs := [.fin (-1), .fin (-1)], rhs := .fin 1 }] }
+
+theorem exInf_std : standardize exInf = .ok exInfStd := by rw [fieldExact_rat]; decide +kernel
+
+def exTI : Tab ℚ := { c := [1, 1, 0], a := [[-1, -1, 1]], b := [1], basis := [2], value := -1, offset := 0, flip := false }
+
+theorem exInf_phase1 : phase1Tab (stdK exInfStd) = exTI := by
+  simp [phase1Tab, stdK, exInfStd, exTI, toK, resize, subRow, List.zipIdx, List.range, List.range.loop]
+
+theorem exTI_solve (prefer : List Nat) : (solve (0:ℚ) 1 10 prefer exTI).result = .ok () ∧ (solve (0:ℚ) 1 10 prefer exTI).final.value = -1 := by
+  have hs : stepInner (0:ℚ) exTI prefer false = .ok (.finished, exTI) := by
+    simp [stepInner, isOptimal, findH, eligible, minByFirst, exTI, Tol.fge, Tol.feq, Tol.flt, List.zipIdx]
+  have h1 : decide (0 > (exTI.c.length + exTI.a.length + 1)) = false := by decide
+  simp only [solve, solveLoop, h1, hs]
+  simp [exTI]
+
+theorem exInf_wf : WF exInf := by
+  refine ⟨rfl, ?_, ?_, ?_, ?_, ?_, ?_, ?_, ?_, ?_, Or.inl rfl⟩
+  · simp [exInf, isFin]
+  · simp [exInf, isFin]
+  · simp [exInf]
+  · simp [exInf, isFin]
+  · simp [exInf]
+  · simp [exInf, lookup]
+  · simp [exInf, isContinuous]
+  · simp [exInf]
+  · simp [exInf, isFin]
+
 end Rooc.ComposeSimplex
